@@ -99,6 +99,20 @@ def run_check(prop, tier):
             print("minimised to %d step(s) in %d test(s)" % (
                 len(small["steps"]), tests))
             print("VIOLATION property=%s replay=%s" % (prop, path))
+    cross = {}
+    if (tier == "thorough" or os.environ.get("VERIF_CROSSCHECK")) and hasattr(
+            wl, "crosscheck"):
+        cross = wl.crosscheck(seed, workers=workers)
+        for key, val in cross.items():
+            if key.endswith("mismatches") and val:
+                # the trusted base (fork = fresh process, in-process main =
+                # real CLI process) does not hold: nothing above is believed
+                print("HARNESS-ERROR: cross-check failed: %s" % json.dumps(
+                    val[:2], default=str)[:800])
+                return 2
+        print("cross-check: %s" % json.dumps(
+            {k: v for k, v in cross.items() if not isinstance(v, list)}))
+    wl._cross = cross
     wall = kernel._real_monotonic() - t0
     if not os.environ.get("VERIF_NO_EVIDENCE"):
         write_evidence(prop, wl, tier, seed, agg, wall, agg.n_unknown,
@@ -161,6 +175,8 @@ def write_evidence(prop, wl, tier, seed, agg, wall, n_unknown, workers,
     extra = getattr(wl, "extra_coverage", None)
     if extra:
         coverage.update(extra(agg))
+    for key, val in getattr(wl, "_cross", {}).items():
+        coverage[key] = val
     kernel.write_evidence(prop, tier, seed, coverage, wall, n_unknown,
                           wl.ASSUMPTIONS)
 
@@ -201,6 +217,9 @@ def main(argv):
             return run_check(cmd, tier)
         if cmd == "replay":
             return run_replay(argv[1])
+        if cmd == "_solo":
+            kernel.import_library()
+            return load_workload("C15").solo_main(argv[1], int(argv[2]))
         if cmd == "_digests":
             from isosim import selftest
             return selftest.print_digests(argv[1], int(argv[2]),
